@@ -21,7 +21,7 @@ MOCK = dict(M=0, MV=1, W=2)
  OP_COPY_WATCHED, OP_MOVECONS_WATCHED, OP_ASSIGN_WATCHED, OP_MOVEASSIGN_WATCHED, OP_MONITOR, OP_PUSH_TRACER, OP_POP_TRACER,
  OP_SET_REPORTER) = range(17)
 
-F_KIND, F_HANDLER, F_REPCOUNT, F_REPCULPRIT, F_REPDETAIL, F_OK, F_TRACE, F_CLOG, F_QEXP, F_QSEQ, F_MISC = [1 << i for i in range(11)]
+F_KIND, F_HANDLER, F_REPCOUNT, F_REPCULPRIT, F_REPDETAIL, F_OKREP, F_TRACE, F_CLOG, F_QEXP, F_QSEQ, F_MISC = [1 << i for i in range(11)]
 F_REPORTS = F_REPCOUNT | F_REPCULPRIT | F_REPDETAIL
 F_ALL = (1 << 11) - 1
 
@@ -36,7 +36,7 @@ class Gen:
 
     def shape(self, mock='M', fn=F1, mk1='EQ', mk2='ANY', nwith=0, nse=0, seqar=0, tform='RT', tl=0, th=0, act=None, clauses=None):
         if act is None:
-            act = 'NONE' if (fn == V1 or tform == 'FORBID' or (tform in ('N',) and tl == 0) or mock == 'W') else ('RETREF' if fn == R1 else 'RET')
+            act = 'NONE' if (fn == V1 or tform == 'FORBID' or (tform in ('N', 'ATMOST') and tl == 0) or mock == 'W') else ('RETREF' if fn == R1 else 'RET')
         if clauses is None:
             clauses = 'W' * nwith + ('Q' if seqar else '') + ('T' if tform not in ('DEFAULT', 'ALLOW', 'FORBID') else '') + 'S' * nse + ('A' if act != 'NONE' else '')
         key = (MOCK[mock], fn, MK[mk1], MK[mk2], nwith, nse, seqar, TF[tform], tl, th, ACT[act], clauses)
@@ -89,10 +89,10 @@ class Gen:
         wi = si_ = 0
         for c in clauses:
             if c == 'W':
-                chain += '.%s(pw->hw(%d,%d,_1))' % ('WITH' if wi % 2 == 0 else 'LR_WITH', K, wi)
+                chain += '.%s(cur()->hw(%d,%d,_1))' % ('WITH' if wi % 2 == 0 else 'LR_WITH', K, wi)
                 wi += 1
             elif c == 'S':
-                chain += '.%s(pw->hs(%d,%d,_1))' % ('SIDE_EFFECT' if si_ % 2 == 0 else 'LR_SIDE_EFFECT', K, si_)
+                chain += '.%s(cur()->hs(%d,%d,_1))' % ('SIDE_EFFECT' if si_ % 2 == 0 else 'LR_SIDE_EFFECT', K, si_)
                 si_ += 1
             elif c == 'Q':
                 chain += '.IN_SEQUENCE(%s)' % seqargs
@@ -108,8 +108,8 @@ class Gen:
                 elif tform == TF['ATMOST']:
                     chain += '.TIMES(AT_MOST(%d))' % tl
             elif c == 'A':
-                chain += {ACT['RET']: '.RETURN(pw->hr(%d))' % K, ACT['RETREF']: '.LR_RETURN(pw->hrr(%d))' % K,
-                          ACT['THROW_INT']: '.THROW(pw->ht(%d))' % K, ACT['THROW_STD']: '.THROW(pw->hte(%d))' % K}[act]
+                chain += {ACT['RET']: '.RETURN(cur()->hr(%d))' % K, ACT['RETREF']: '.LR_RETURN(cur()->hrr(%d))' % K,
+                          ACT['THROW_INT']: '.THROW(cur()->ht(%d))' % K, ACT['THROW_STD']: '.THROW(cur()->hte(%d))' % K}[act]
         getter = 'pw->M_(op.obj)' if mock == MOCK['M'] else 'pw->MV_(op.obj)'
         return 'auto& %s = %s; return %s;' % (var, getter, chain), text
 
@@ -235,7 +235,360 @@ def plans_C06(g, tier):
                  prefixes=[p for p in seq_configs(g, 3, [(1, 1), (0, INF)], with_monitors=True, any_matchers=False) if any(o[0] == OP_MONITOR for o in p)])]
 
 
-PLANS = {'C05': plans_C05, 'C06': plans_C06}
+
+# ---------------------------------------------------------------- C01
+def c01_alphabet(g, slots, objs_mv=True):
+    """create / release / call / move / destroy over overlapping expectations on obj0.f, obj0.g and a movable mock."""
+    A = []
+    variants = []
+    for mk in ('ANY', 'EQ', 'LT'):
+        for b in [(1, 1), (0, INF), (0, 0), (1, 2)]:
+            variants.append(dict(sh=dict(fn=F1, mk1=mk), lo=b[0], hi=b[1]))
+    for b in [(1, 1), (0, INF)]:
+        variants.append(dict(sh=dict(fn=F1, mk1='ANY', nwith=1), lo=b[0], hi=b[1], wmode=(2, 0, 0)))
+    variants.append(dict(sh=dict(fn=F1, mk1='EQ', act='THROW_INT'), lo=1, hi=1))
+    variants.append(dict(sh=dict(fn=F1, mk1='ANY', act='THROW_INT', nse=1), lo=0, hi=INF))
+    variants.append(dict(sh=dict(fn=F1, mk1='ANY', seqar=1), lo=1, hi=1))
+    variants.append(dict(sh=dict(fn=F1, mk1='EQ', seqar=1), lo=0, hi=INF))
+    variants.append(dict(sh=dict(fn=G1, mk1='ANY', nse=1), lo=1, hi=1))
+    for slot in slots:
+        for v in variants:
+            A.append(g.create(slot, g.shape(**v['sh']), obj=0, k1=1, lo=v['lo'], hi=v['hi'], s1=0, wmode=v.get('wmode', (0, 0, 0))))
+        if objs_mv:
+            for b in [(1, 1), (0, INF)]:
+                A.append(g.create(slot, g.shape(mock='MV', fn=F1, mk1='ANY'), obj=2, k1=1, lo=b[0], hi=b[1]))
+        A.append(g.release(slot))
+    A += [g.call(0, F1, a) for a in (0, 1, 2)] + [g.call(0, G1, 1)]
+    if objs_mv:
+        A += [g.call(2, F1, 1), g.call(3, F1, 1), g.op(OP_MOVE_MOCK, obj=2, k1=3), g.op(OP_MOVE_MOCK, obj=3, k1=2), g.op(OP_DESTROY_MOCK, obj=2), g.op(OP_DESTROY_MOCK, obj=3)]
+    A.append(g.op(OP_DESTROY_MOCK, obj=0))
+    return A
+
+
+M_C01 = F_KIND | F_REPCOUNT | F_CLOG | F_QEXP
+
+
+def plans_C01(g, tier):
+    if tier == 'quick':
+        return [dict(name='hist2', mask=M_C01, du=2, dm=5, alphabet=c01_alphabet(g, (0, 1)))]
+    return [dict(name='hist2', mask=M_C01, du=3, dm=7, alphabet=c01_alphabet(g, (0, 1))),
+            dict(name='hist3', mask=M_C01, du=2, dm=5, alphabet=c01_alphabet(g, (0, 1, 2)))]
+
+
+# ---------------------------------------------------------------- C02
+def c02_configs(g, matchers, bounds, masks=(0, 1, 2, 3), with_variant=True):
+    per = []
+    for mk in matchers:
+        for b in bounds:
+            for mask in masks:
+                per.append((mk, b, mask, 0))
+    if with_variant:
+        for mask in (0, 1):
+            per.append(('ANY', (0, INF), mask, 1))   # WITH(_1 >= 1)
+    out = []
+    for combo in itertools.product(per, repeat=3):
+        first = next((c[2] for c in combo if c[2] in (1, 2)), None)
+        if first == 2:
+            continue
+        pre = []
+        for i, (mk, b, mask, w) in enumerate(combo):
+            ar = 0 if mask == 0 else (2 if mask == 3 else 1)
+            sh = g.shape(fn=F1, mk1=mk, seqar=ar, nwith=w, nse=1)
+            pre.append(g.create(i, sh, obj=0, k1=1 if mk == 'EQ' else 2, lo=b[0], hi=b[1], s1=1 if mask == 2 else 0, s2=1, wmode=(3, 0, 0)))
+        out.append(pre)
+    return out
+
+
+M_C02 = F_KIND | F_HANDLER | F_CLOG | F_QEXP
+
+
+def plans_C02(g, tier):
+    calls = [g.call(0, F1, a) for a in (0, 1, 2)]
+    rel = [g.release(i) for i in range(3)]
+    # isolation: expectations on another object, another function, another overload are never touched
+    iso_pre = []
+    for tgt in range(3):
+        others = [g.create(1, g.shape(fn=F1, mk1='ANY', nse=1), obj=1, lo=1, hi=2),
+                  g.create(2, g.shape(fn=G1, mk1='ANY', nse=1), obj=0, lo=1, hi=2),
+                  g.create(3, g.shape(fn=F2, mk1='ANY', mk2='ANY', nse=1), obj=0, lo=1, hi=2)]
+        for mk in ('ANY', 'EQ'):
+            for b in [(1, 1), (0, INF), (0, 0)]:
+                iso_pre.append([g.create(0, g.shape(fn=F1, mk1=mk, nse=0 if b == (0, 0) else 1), obj=0, k1=1, lo=b[0], hi=b[1])] + others)
+    iso_alpha = calls + [g.call(1, F1, 1), g.call(0, G1, 1), g.call(0, F2, 1, 1), g.call(1, G1, 1), g.call(1, F2, 1, 1)] + [g.release(i) for i in range(4)]
+    if tier == 'quick':
+        return [dict(name='sel3', mask=M_C02, du=0, dm=3, alphabet=calls + rel, prefixes=c02_configs(g, ('ANY', 'EQ', 'LT'), [(0, INF), (1, 2)])),
+                dict(name='isolation', mask=M_C02, du=0, dm=4, alphabet=iso_alpha, prefixes=iso_pre)]
+    return [dict(name='sel3', mask=M_C02, du=0, dm=5, alphabet=calls + rel, prefixes=c02_configs(g, ('ANY', 'EQ', 'LT'), [(0, INF), (1, 2), (1, 1)])),
+            dict(name='isolation', mask=M_C02, du=0, dm=6, alphabet=iso_alpha, prefixes=iso_pre)]
+
+
+# ---------------------------------------------------------------- C03
+def c03_forms(g):
+    """(shape kwargs, lo, hi) for every bound form: compile-time and run-time."""
+    forms = []
+    forms.append((dict(tform='DEFAULT'), 1, 1))
+    forms.append((dict(tform='ALLOW'), 0, INF))
+    forms.append((dict(tform='FORBID'), 0, 0))
+    for n in range(0, 4):
+        forms.append((dict(tform='N', tl=n), n, n))
+        forms.append((dict(tform='ATLEAST', tl=n), n, INF))
+        forms.append((dict(tform='ATMOST', tl=n), 0, n))
+    for l in range(0, 4):
+        for h in range(l, 4):
+            if h > 0 and l != h:
+                forms.append((dict(tform='LH', tl=l, th=h), l, h))
+    for l in range(0, 4):
+        for h in list(range(l, 4)) + [INF]:
+            forms.append((dict(tform='RT'), l, h))
+    return forms
+
+
+M_C03 = F_KIND | F_HANDLER | F_QEXP | F_REPCOUNT | F_REPCULPRIT | F_REPDETAIL | F_QSEQ
+
+
+def plans_C03(g, tier):
+    pre = []
+    for kw, lo, hi in c03_forms(g):
+        forbidden = hi == 0
+        tested = lambda slot, mk='ANY', kw=kw, lo=lo, hi=hi, forbidden=forbidden: g.create(slot, g.shape(fn=F1, mk1=mk, **kw), obj=0, k1=1, lo=lo, hi=hi)
+        allow = lambda slot, mk='ANY': g.create(slot, g.shape(fn=F1, mk1=mk, tform='ALLOW'), obj=0, k1=1)
+        pre.append([tested(0)])                       # alone
+        pre.append([allow(0), tested(1)])             # stacked over an older ALLOW_CALL
+        pre.append([tested(0), allow(1, 'EQ')])       # under a newer ALLOW_CALL that claims argument 1 only
+        if tier != 'quick':
+            pre.append([g.create(0, g.shape(fn=F1, mk1='ANY', tform='RT'), obj=0, lo=1, hi=2), tested(1)])  # two stacked bounded expectations
+    # RT_TIMES(lo > hi): with and without a preceding IN_SEQUENCE
+    bad = [g.create(3, g.shape(fn=F1, mk1='ANY', tform='RT'), obj=0, lo=2, hi=1),
+           g.create(3, g.shape(fn=F1, mk1='ANY', tform='RT', seqar=1), obj=0, lo=3, hi=0, s1=0),
+           g.create(3, g.shape(fn=F1, mk1='ANY', tform='RT', seqar=2, clauses='QTA'), obj=0, lo=1, hi=0, s1=0, s2=1)]
+    seqd = g.create(2, g.shape(fn=G1, mk1='ANY', tform='RT', seqar=1), obj=0, lo=1, hi=1, s1=0)
+    alpha = [g.call(0, F1, 1), g.call(0, F1, 2), g.release(0), g.release(1)] + bad + [seqd, g.call(0, G1, 1), g.op(OP_DESTROY_SEQ, s1=0)]
+    return [dict(name='bounds', mask=M_C03, du=0, dm=6 if tier == 'quick' else 8, alphabet=alpha, prefixes=pre)]
+
+
+# ---------------------------------------------------------------- C04
+M_C04 = F_REPCOUNT | F_REPCULPRIT | F_REPDETAIL | F_KIND
+
+
+def c04_alphabet(g, slots):
+    A = []
+    for slot in slots:
+        for b in [(1, 1), (2, 2), (0, INF), (0, 0), (1, INF)]:
+            for mk in ('ANY', 'EQ'):
+                A.append(g.create(slot, g.shape(fn=F1, mk1=mk), obj=0, k1=1, lo=b[0], hi=b[1]))
+            A.append(g.create(slot, g.shape(mock='MV', fn=F1, mk1='EQ'), obj=2, k1=1, lo=b[0], hi=b[1]))
+        A.append(g.create(slot, g.shape(fn=F1, mk1='ANY', seqar=1), obj=0, lo=1, hi=1, s1=0))
+        A.append(g.create(slot, g.shape(fn=F2, mk1='EQ', mk2='ANY'), obj=0, k1=1, lo=2, hi=2))
+        A.append(g.release(slot))
+    A += [g.call(0, F1, 1), g.call(0, F1, 0), g.call(2, F1, 1), g.call(2, F1, 0), g.call(3, F1, 1), g.call(0, F2, 1, 1), g.call(0, F2, 0, 1)]
+    A += [g.op(OP_DESTROY_MOCK, obj=0), g.op(OP_DESTROY_MOCK, obj=2), g.op(OP_DESTROY_MOCK, obj=3), g.op(OP_MOVE_MOCK, obj=2, k1=3)]
+    return A
+
+
+def plans_C04(g, tier):
+    if tier == 'quick':
+        return [dict(name='eol2', mask=M_C04, du=2, dm=5, alphabet=c04_alphabet(g, (0, 1)))]
+    return [dict(name='eol2', mask=M_C04, du=3, dm=8, alphabet=c04_alphabet(g, (0, 1))),
+            dict(name='eol3', mask=M_C04, du=2, dm=5, alphabet=c04_alphabet(g, (0, 1, 2)))]
+
+
+# ---------------------------------------------------------------- C07
+M_C07 = F_KIND | F_REPCOUNT | F_REPCULPRIT | F_REPDETAIL | F_CLOG | F_QEXP | F_HANDLER
+
+
+def c07_alphabet(g, slots):
+    A = []
+    for slot in slots:
+        for mk in ('ANY', 'EQ', 'LT'):
+            A.append(g.create(slot, g.shape(fn=F1, mk1=mk, tform='ALLOW', nse=1), obj=0, k1=1))
+        for mk in ('ANY', 'EQ', 'GE'):
+            A.append(g.create(slot, g.shape(fn=F1, mk1=mk, tform='FORBID'), obj=0, k1=1))
+        A.append(g.create(slot, g.shape(fn=F1, mk1='EQ', tform='N', tl=0), obj=0, k1=1))
+        A.append(g.create(slot, g.shape(fn=F1, mk1='NE', tform='RT'), obj=0, k1=1, lo=0, hi=0))
+        A.append(g.create(slot, g.shape(fn=F1, mk1='EQ', tform='RT', nse=1), obj=0, k1=2, lo=1, hi=1))
+        A.append(g.create(slot, g.shape(fn=F2, mk1='EQ', mk2='ANY', tform='FORBID'), obj=0, k1=1))
+        A.append(g.release(slot))
+    A += [g.call(0, F1, a) for a in (0, 1, 2)] + [g.call(0, F2, 1, 2), g.call(0, F2, 0, 2)]
+    return A
+
+
+def plans_C07(g, tier):
+    if tier == 'quick':
+        return [dict(name='forbid3', mask=M_C07, du=2, dm=5, alphabet=c07_alphabet(g, (0, 1, 2)))]
+    return [dict(name='forbid3', mask=M_C07, du=3, dm=7, alphabet=c07_alphabet(g, (0, 1, 2))),
+            dict(name='forbid4', mask=M_C07, du=2, dm=6, alphabet=c07_alphabet(g, (0, 1, 2, 3)))]
+
+
+# ---------------------------------------------------------------- C08
+M_C08 = F_CLOG | F_HANDLER | F_KIND | F_QEXP
+
+
+def interleavings(w, s):
+    if w == 0 and s == 0:
+        return ['']
+    out = []
+    if w:
+        out += ['W' + x for x in interleavings(w - 1, s)]
+    if s:
+        out += ['S' + x for x in interleavings(w, s - 1)]
+    return out
+
+
+def plans_C08(g, tier):
+    maxc = 2 if tier == 'quick' else 3
+    pre = []
+    shadow = g.create(1, g.shape(fn=F1, mk1='ANY', tform='ALLOW', nwith=1, nse=1), obj=0, wmode=(0, 0, 0))
+    shadow_v = g.create(1, g.shape(fn=V1, mk1='ANY', tform='ALLOW', nwith=1, nse=1), obj=0, wmode=(0, 0, 0))
+    shadow_r = g.create(1, g.shape(fn=R1, mk1='ANY', tform='ALLOW', nwith=1, nse=1), obj=0, wmode=(0, 0, 0))
+    allow_g = g.create(2, g.shape(fn=G1, mk1='ANY', tform='ALLOW', nse=1), obj=0)
+    for w in range(0, maxc + 1):
+        for s_ in range(0, maxc + 1):
+            if w + s_ > (4 if tier == 'quick' else 5):
+                continue
+            for order in interleavings(w, s_):
+                for fn, act in ((F1, 'RET'), (V1, 'NONE'), (R1, 'RETREF'), (F1, 'THROW_INT'), (F1, 'THROW_STD')):
+                    if act in ('THROW_STD',) and (w + s_) > 2:
+                        continue
+                    clauses = order + 'T' + ('A' if act != 'NONE' else '')
+                    sh = g.shape(fn=fn, mk1='ANY', nwith=w, nse=s_, tform='RT', act=act, clauses=clauses)
+                    wvecs = list(itertools.product((0, 1, 2), repeat=w))
+                    svecs = list(itertools.product((0, 1, 2, 3) if tier != 'quick' else (0, 1, 2), repeat=s_))
+                    for wv in wvecs:
+                        for sv in svecs:
+                            for am in ((0, 1) if act == 'RET' else (0,)):
+                                if tier == 'quick' and am == 1 and (w + s_) > 1:
+                                    continue
+                                wm = tuple(wv) + (0,) * (3 - w)
+                                sm = tuple(sv) + (0,) * (3 - s_)
+                                sh_shadow = shadow if fn == F1 else (shadow_v if fn == V1 else shadow_r)
+                                pre.append([allow_g, sh_shadow, g.create(0, sh, obj=0, lo=1, hi=2, wmode=wm, semode=sm, actmode=am)])
+    alpha = [g.call(0, F1, 1), g.call(0, F1, 2), g.call(0, V1, 1), g.call(0, V1, 2), g.call(0, R1, 1), g.call(0, R1, 2)]
+    return [dict(name='clauses', mask=M_C08, du=0, dm=3, alphabet=alpha, prefixes=pre)]
+
+
+# ---------------------------------------------------------------- C13
+M_C13 = F_REPCOUNT | F_REPCULPRIT | F_QEXP | F_KIND
+
+
+def c13_alphabet(g, slots, nw):
+    A = []
+    for w in range(nw):
+        A += [g.op(OP_NEW_WATCHED, obj=w), g.op(OP_DELETE_WATCHED, obj=w)]
+    for slot in slots:
+        for w in range(nw):
+            A.append(g.monitor(slot, g.shape(mock='W', seqar=0), w=w))
+            A.append(g.monitor(slot, g.shape(mock='W', seqar=1), w=w, s1=0))
+        A.append(g.release(slot))
+    for (a, b) in [(0, 2), (1, 2)] if nw > 2 else [(0, 1)]:
+        A += [g.op(OP_COPY_WATCHED, obj=a, k1=b), g.op(OP_MOVECONS_WATCHED, obj=a, k1=b)]
+    for (a, b) in ([(0, 1), (1, 0), (0, 2), (2, 0)] if nw > 2 else [(0, 1), (1, 0)]):
+        A += [g.op(OP_ASSIGN_WATCHED, obj=a, k1=b), g.op(OP_MOVEASSIGN_WATCHED, obj=a, k1=b)]
+    return A
+
+
+def plans_C13(g, tier):
+    if tier == 'quick':
+        return [dict(name='watch2', mask=M_C13, du=3, dm=6, alphabet=c13_alphabet(g, (0, 1), 2))]
+    return [dict(name='watch3', mask=M_C13, du=4, dm=8, alphabet=c13_alphabet(g, (0, 1), 3)),
+            dict(name='watch3mon3', mask=M_C13, du=3, dm=6, alphabet=c13_alphabet(g, (0, 1, 2), 3))]
+
+
+# ---------------------------------------------------------------- C14
+M_C14 = F_KIND | F_HANDLER | F_QEXP | F_QSEQ | F_REPCOUNT
+
+
+def plans_C14(g, tier):
+    # population: non-movable mock with a sequenced expectation, movable mock with a bounded one (will saturate),
+    # two sequences, watched object with a sequenced monitor, a tracer
+    pop = [g.create(0, g.shape(fn=F1, mk1='ANY', seqar=2, tform='RT'), obj=0, lo=1, hi=INF, s1=0, s2=1),
+           g.create(1, g.shape(mock='MV', fn=F1, mk1='ANY', tform='RT'), obj=2, lo=1, hi=1),
+           g.op(OP_NEW_WATCHED, obj=0),
+           g.monitor(2, g.shape(mock='W', seqar=1), w=0, s1=0),
+           g.op(OP_PUSH_TRACER, k1=0)]
+    pop_small = [g.create(0, g.shape(fn=F1, mk1='ANY', seqar=1, tform='RT'), obj=0, lo=1, hi=INF, s1=0),
+                 g.create(1, g.shape(fn=F1, mk1='EQ', tform='RT'), obj=0, k1=1, lo=1, hi=1),
+                 g.op(OP_NEW_WATCHED, obj=0),
+                 g.monitor(2, g.shape(mock='W', seqar=1), w=0, s1=0)]
+    destroy = [g.release(0), g.release(1), g.release(2), g.op(OP_DESTROY_MOCK, obj=0), g.op(OP_DESTROY_MOCK, obj=2), g.op(OP_DESTROY_MOCK, obj=3),
+               g.op(OP_MOVE_MOCK, obj=2, k1=3), g.op(OP_MOVE_MOCK, obj=3, k1=2), g.op(OP_DESTROY_SEQ, s1=0), g.op(OP_DESTROY_SEQ, s1=1), g.op(OP_MOVE_SEQ, s1=0),
+               g.op(OP_DELETE_WATCHED, obj=0), g.op(OP_POP_TRACER)]
+    probes = [g.call(0, F1, 1), g.call(2, F1, 1), g.call(3, F1, 1)]
+    small_alpha = [g.release(0), g.release(1), g.release(2), g.op(OP_DESTROY_MOCK, obj=0), g.op(OP_DESTROY_SEQ, s1=0), g.op(OP_MOVE_SEQ, s1=0), g.op(OP_DELETE_WATCHED, obj=0),
+                   g.call(0, F1, 1), g.call(0, F1, 2)]
+    if tier == 'quick':
+        return [dict(name='pop6', mask=M_C14, du=9, dm=6, alphabet=small_alpha, prefixes=[pop_small]),
+                dict(name='pop9', mask=M_C14, du=9, dm=4, alphabet=destroy + probes, prefixes=[pop])]
+    return [dict(name='pop6', mask=M_C14, du=9, dm=8, alphabet=small_alpha, prefixes=[pop_small]),
+            dict(name='pop9', mask=M_C14, du=9, dm=6, alphabet=destroy + probes, prefixes=[pop])]
+
+
+# ---------------------------------------------------------------- C16
+M_C16 = F_OKREP | F_MISC | F_KIND
+
+
+def plans_C16(g, tier):
+    A = []
+    slots = (0, 1, 2)
+    for slot in slots:
+        for mk in ('ANY', 'EQ'):
+            A.append(g.create(slot, g.shape(fn=F1, mk1=mk, tform='ALLOW'), obj=0, k1=1))
+            A.append(g.create(slot, g.shape(fn=F1, mk1=mk, tform='RT'), obj=0, k1=1, lo=1, hi=1))
+        A.append(g.create(slot, g.shape(fn=F1, mk1='EQ', tform='FORBID'), obj=0, k1=2))
+        A.append(g.create(slot, g.shape(fn=F1, mk1='ANY', tform='RT', seqar=1), obj=0, lo=1, hi=1, s1=0))
+        A.append(g.create(slot, g.shape(fn=G1, mk1='ANY', tform='ALLOW'), obj=0))
+        A.append(g.release(slot))
+    A += [g.call(0, F1, a) for a in (0, 1, 2)] + [g.call(0, G1, 1)]
+    A += [g.op(OP_SET_REPORTER, k1=1, k2=1), g.op(OP_SET_REPORTER, k1=2, k2=0), g.op(OP_SET_REPORTER, k1=0, k2=1)]
+    if tier == 'quick':
+        return [dict(name='ok3', mask=M_C16, du=2, dm=5, alphabet=A)]
+    return [dict(name='ok3', mask=M_C16, du=3, dm=7, alphabet=A)]
+
+
+# ---------------------------------------------------------------- C17
+M_C17 = F_TRACE | F_KIND
+
+
+def plans_C17(g, tier):
+    pre = [[g.create(0, g.shape(fn=F1, mk1='EQ', tform='ALLOW', nse=1), obj=0, k1=1, semode=(2, 0, 0)),   # side effect calls g(_1): nested record
+            g.create(1, g.shape(fn=G1, mk1='ANY', tform='ALLOW'), obj=0),
+            g.create(2, g.shape(fn=V1, mk1='ANY', tform='ALLOW'), obj=0),
+            g.create(3, g.shape(fn=F1, mk1='EQ', tform='ALLOW', act='THROW_STD'), obj=0, k1=2)],
+           [g.create(0, g.shape(fn=F1, mk1='EQ', tform='ALLOW', act='THROW_INT'), obj=0, k1=1),
+            g.create(1, g.shape(fn=F2, mk1='ANY', mk2='EQ', tform='ALLOW'), obj=0, k2=2),
+            g.create(2, g.shape(fn=R1, mk1='ANY', tform='ALLOW'), obj=0),
+            g.create(3, g.shape(fn=F1, mk1='EQ', tform='FORBID'), obj=0, k1=0)],
+           [g.create(0, g.shape(fn=F1, mk1='ANY', tform='ALLOW', nse=1), obj=0, semode=(3, 0, 0)),        # recursion into the same function
+            g.create(1, g.shape(fn=F1, mk1='EQ', tform='RT', seqar=1), obj=0, k1=0, lo=1, hi=1, s1=0),
+            g.create(2, g.shape(fn=G1, mk1='ANY', tform='RT', seqar=1, act='THROW_STD'), obj=0, lo=1, hi=1, s1=0)]]
+    A = [g.op(OP_PUSH_TRACER, k1=0), g.op(OP_PUSH_TRACER, k1=1), g.op(OP_POP_TRACER)]
+    A += [g.call(0, F1, a) for a in (0, 1, 2)] + [g.call(0, G1, 1), g.call(0, V1, 1), g.call(0, F2, 1, 2), g.call(0, R1, 1), g.release(3)]
+    return [dict(name='trace', mask=M_C17, du=3 if tier == 'quick' else 4, dm=6 if tier == 'quick' else 8, alphabet=A, prefixes=pre)]
+
+
+# ---------------------------------------------------------------- C15: the report mask applied to the violation-producing histories
+def plans_C15(g, tier):
+    mask = F_REPCOUNT | F_REPCULPRIT | F_REPDETAIL | F_KIND
+    plans = []
+    t = 'quick'  # the source alphabets at their quick bounds; the thorough tier deepens them
+    deeper = 0 if tier == 'quick' else 1
+    for name, fn in (('c01', plans_C01), ('c03', plans_C03), ('c04', plans_C04), ('c05', plans_C05), ('c06', plans_C06), ('c07', plans_C07), ('c13', plans_C13)):
+        for p in fn(g, t):
+            q = dict(p); q['name'] = name + '_' + p['name']; q['mask'] = mask; q['dm'] = p['dm'] + deeper if name not in ('c05', 'c06') else p['dm']
+            plans.append(q)
+    # two-parameter overload: expectations that match one position and miss the other; WITH failing after parameters fit
+    pre = []
+    for mk1, mk2 in itertools.product(('ANY', 'EQ', 'LT'), repeat=2):
+        for w in (0, 1):
+            pre.append([g.create(0, g.shape(fn=F2, mk1=mk1, mk2=mk2, nwith=w, tform='RT'), obj=0, k1=1, k2=1, lo=1, hi=1, wmode=(1, 0, 0)),
+                        g.create(1, g.shape(fn=F2, mk1='EQ', mk2='EQ', nwith=2, tform='RT'), obj=0, k1=2, k2=2, lo=1, hi=2, wmode=(0, 2, 0))])
+    alpha = [g.call(0, F2, a, b) for a in (0, 1, 2) for b in (0, 1, 2)] + [g.release(0), g.release(1)]
+    plans.append(dict(name='overload_listing', mask=mask, du=0, dm=3 + deeper, alphabet=alpha, prefixes=pre))
+    return plans
+
+
+PLANS = {'C01': plans_C01, 'C02': plans_C02, 'C03': plans_C03, 'C04': plans_C04, 'C05': plans_C05, 'C06': plans_C06, 'C07': plans_C07,
+         'C08': plans_C08, 'C13': plans_C13, 'C14': plans_C14, 'C15': plans_C15, 'C16': plans_C16, 'C17': plans_C17}
+
 
 
 def main():
